@@ -140,7 +140,39 @@ class QfixedImp(float, Qtype):
         return v[1][v[0].BIT_SIZE_FRACTIONAL :] + v[1][: v[0].BIT_SIZE_FRACTIONAL][::-1]
 
     @staticmethod
+    def _align(tleft: TExp, tright: TExp):
+        """Convert two Qfixed values of different types to the wider of the two types: the
+        integer part is extended on the most significant side, the fractional part on the
+        least significant one (a plain fill would misplace the bits)"""
+        if (
+            tleft[0] == tright[0]
+            or not issubclass(tleft[0], QfixedImp)
+            or not issubclass(tright[0], QfixedImp)
+        ):
+            return tleft, tright
+
+        lt, rt = tleft[0], tright[0]
+        if (lt.BIT_SIZE_INTEGER, lt.BIT_SIZE_FRACTIONAL) >= (
+            rt.BIT_SIZE_INTEGER,
+            rt.BIT_SIZE_FRACTIONAL,
+        ):
+            target = lt
+        else:
+            target = rt
+
+        def conv(v):
+            ip = v[0].integer_part(v) + [False] * target.BIT_SIZE_INTEGER
+            fp = v[0].fractional_part(v) + [False] * target.BIT_SIZE_FRACTIONAL
+            return (
+                target,
+                ip[: target.BIT_SIZE_INTEGER] + fp[: target.BIT_SIZE_FRACTIONAL],
+            )
+
+        return conv(tleft), conv(tright)
+
+    @staticmethod
     def eq(tleft: TExp, tcomp: TExp) -> TExp:
+        tleft, tcomp = QfixedImp._align(tleft, tcomp)
         ex = true
         for x in zip(tleft[1], tcomp[1]):
             ex = And(ex, _eq(x[0], x[1]))
@@ -149,6 +181,7 @@ class QfixedImp(float, Qtype):
 
     @staticmethod
     def neq(tleft: TExp, tcomp: TExp) -> TExp:
+        tleft, tcomp = QfixedImp._align(tleft, tcomp)
         ex = false
         for x in zip(tleft[1], tcomp[1]):
             ex = Or(ex, _neq(x[0], x[1]))
@@ -162,6 +195,7 @@ class QfixedImp(float, Qtype):
         if not issubclass(tcomp[0], QfixedImp):
             raise TypeErrorException(tcomp[0], QfixedImp)
 
+        tleft, tcomp = QfixedImp._align(tleft, tcomp)
         tleft_e = cast(Qtype, tleft)
         tcomp_e = cast(Qtype, tcomp)
 
@@ -213,6 +247,7 @@ class QfixedImp(float, Qtype):
         if not issubclass(tleft[0], QfixedImp):
             raise TypeErrorException(tleft[0], QfixedImp)
 
+        tleft, tright = QfixedImp._align(tleft, tright)
         tright_e = cast(Qtype, tright)
         tleft_e = cast(Qtype, tleft)
 
@@ -237,6 +272,7 @@ class QfixedImp(float, Qtype):
         if not issubclass(tright[0], Qtype):
             raise TypeErrorException(tright[0], Qtype)
 
+        tleft, tright = QfixedImp._align(tleft, tright)
         an = cls.bitwise_not(cls.fill(tleft))
         su = cls.add(an, cls.fill(tright))
         return cls.bitwise_not(su)
